@@ -321,7 +321,8 @@ def oracle_no_loss(cfg, ops, trace):
                     if k not in s.map:
                         return (f"op {i} `{' '.join(toks)}`: new key of weight {w_new} fits (held weight {phys}, "
                                 f"cap {cap}) but was not admitted")
-                    lost = [x for x in prev.map if x not in purged and x not in s.map]
+                    # (an expired entry may always go: when more than one batch is expired we do not know which)
+                    lost = [x for x in prev.map if x not in purged and x not in exp and x not in s.map]
                     if lost:
                         return f"op {i} `{' '.join(toks)}`: new key fits (held weight {phys}, cap {cap}) but {lost} were evicted"
         # (3) refill probe: all probe keys retained
